@@ -18,6 +18,7 @@ PLAN = {
     "c04_lookup": ["asan"],
     "c09_stack": ["asan"],
     "c14_isolation": ["asan"],
+    "c15_state": ["asan"],
     "c13_threads": ["tsan"],
 }
 
